@@ -3253,6 +3253,10 @@ def inject_conflict(program: Program, kind: str, placement: str, ch: Chooser, sw
     elif kind in ("modid/dup", "hostid/dup"):
         k = "module" if kind.startswith("modid") else "host"
         hit = ctx.fresh_mod_id() if k == "module" else ctx.fresh_host_id()
+        if variant.get("oor"):
+            # an id outside the permitted range, which is tolerated when the core definitions are not imported (the range
+            # checks are off then): two definitions sharing it are a conflict all the same
+            hit = ch.choice([5, 150, -3, 0] if k == "module" else [0, -1, 32768, 40000])
         info["id"] = hit
         for spec, where in ((sa, w1), (sb, w2)):
             nm = ctx.fresh_name()
@@ -3383,6 +3387,8 @@ def all_conflict_cases() -> List[dict]:
                     add("msgid/reserved-reserved", pl, swap, spelling1=v1, spelling2=v2, pos1=ps, pos2="end" if ps == "start" else "start")
             add("modid/dup", pl, swap)
             add("hostid/dup", pl, swap)
+            add("modid/dup", pl, swap, oor=1)
+            add("hostid/dup", pl, swap, oor=1)
         for pre in ("MT", "MDF", "HASH", "MID", "HID"):
             for k in ("constant", "string", "alias", "host", "struct"):
                 add(f"generated-name/{pre}-{k}", pl, False, flavour1="message")
